@@ -184,6 +184,16 @@ fn is_borrowed_of(c: &Cow<'_, str>, text: &str) -> bool {
 }
 
 fn call_real(re: &Regex, text: &str, n: usize, rep: &Rep, entry: Entry) -> Outcome<RepOut> {
+    // a correct replace makes at most two searches per match plus one; anything far beyond that is
+    // a spinning loop, turned into a value by the budget hook instead of hanging the check
+    budget::install();
+    budget::arm(budget::DEFAULT_INSNS, 2 * (text.chars().count() as u64 + 3) + 6);
+    let r = call_real_inner(re, text, n, rep, entry);
+    budget::disarm();
+    r
+}
+
+fn call_real_inner(re: &Regex, text: &str, n: usize, rep: &Rep, entry: Entry) -> Outcome<RepOut> {
     macro_rules! go {
         ($r:expr) => {
             match entry {
@@ -228,7 +238,9 @@ fn fault_free_matches(re: &Regex, text: &str) -> Matches {
     let cap = text.chars().count() + 3;
     let mut caps = Vec::new();
     let mut it = re.captures_iter(text);
+    budget::install();
     while caps.len() < cap {
+        budget::arm(budget::DEFAULT_INSNS, 4);
         match guarded_plain(|| it.next()) {
             Outcome::Ok(None) => break,
             Outcome::Ok(Some(Ok(c))) => caps.push(Outcome::Ok(groups_of(&c))),
@@ -243,6 +255,7 @@ fn fault_free_matches(re: &Regex, text: &str) -> Matches {
             Outcome::Err(_) => unreachable!(),
         }
     }
+    budget::disarm();
     Matches { find, caps }
 }
 
@@ -343,6 +356,7 @@ pub struct Stats {
     pub equivalence_groups: u64,
     pub wrappers_compared: u64,
     pub vm_insns: u64,
+    pub budget_skipped: u64,
     pub digest: u64,
 }
 
@@ -386,6 +400,18 @@ pub fn check_case(re: &Regex, case: &Case, m: &Matches, st: &mut Stats) -> Optio
     let mut d = Fnv(st.digest ^ 0x99);
     d.str(&o.out.show());
     st.digest = d.0;
+    if let Outcome::Panic(msg) = &o.out {
+        if msg == budget::INSN_PAYLOAD {
+            st.budget_skipped += 1;
+            return None;
+        }
+        if msg == budget::SEARCH_PAYLOAD {
+            return Some(Found {
+                class: "replace-does-not-terminate".into(),
+                detail: format!("{}({:?}, n={}) made more than {} searches without returning", case.entry.name(), case.text, n, 2 * (case.text.chars().count() + 3) + 6),
+            });
+        }
+    }
     let expect = model(&case.text, m, n, &case.rep);
     let fired = case.fault.as_ref().map_or(false, |f| {
         o.runs.iter().any(|r| r.ordinal == f.j && matches!(r.end, EndReason::BacktrackLimit | EndReason::StackOverflow))
